@@ -2,6 +2,7 @@ package main
 
 import (
 	"fmt"
+	"github.com/kstenerud/go-concise-encoding/ce"
 	"github.com/kstenerud/go-concise-encoding/configuration"
 )
 
@@ -42,5 +43,51 @@ func init() {
 				fmt.Println(idx, dc.format, dc.what, hx(dc.doc))
 			}
 		})
+	}
+}
+
+func init() {
+	runners["dbg-untyped"] = func(r *Run) {
+		cfg := configuration.New()
+		reasons := map[string]int{}
+		ex := map[string]string{}
+		r.each(func(idx int, rng *Rng) {
+			gc := cbeGenCfg("quick")
+			gc.NoComments = true
+			g := NewGen(rng, gc)
+			evs := g.Doc()
+			doc, err := cbeEncode(evs, cfg)
+			if err != nil {
+				return
+			}
+			var uerr error
+			func() {
+				defer func() {
+					if rec := recover(); rec != nil {
+						uerr = fmt.Errorf("PANIC %v", rec)
+					}
+				}()
+				_, uerr = ce.UnmarshalFromCBEDocument(doc, nil, cfg)
+			}()
+			if uerr != nil {
+				msg := uerr.Error()
+				if len(msg) > 70 {
+					msg = msg[:70]
+				}
+				reasons[msg]++
+				if _, ok := ex[msg]; !ok {
+					t := EventsText(evs)
+					if len(t) > 300 {
+						t = t[:300]
+					}
+					ex[msg] = t
+				}
+			} else {
+				reasons["OK"]++
+			}
+		})
+		for k, v := range reasons {
+			fmt.Println(v, k, "\n    ", ex[k])
+		}
 	}
 }
